@@ -873,6 +873,12 @@ where
                 "Configuration changed"
             );
 
+            // `send_message` relies on the buffer being able to hold exactly
+            // one packet: follow the new limit
+            if self.config.max_packet_size != config.max_packet_size {
+                self.send_buf = Vec::with_capacity(config.max_packet_size.get());
+            }
+
             self.config = config;
             Ok(())
         }
